@@ -25,7 +25,7 @@ REPL = {2: ["001", "010", "100"], 3: ["002", "011", "110", "200"]}
 def base_consts(**kw):
     c = {"N": 2, "Keys": {1}, "Cookies": {"c1"}, "Datas": {"e", "a"}, "MetaSet": {"m0", "m1"}, "VTtl": "", "MaxOps": 3,
          "BKF": DEVS, "AckMissing": False, "WithTransient": True, "Faults": FAULTS, "NoCountCheck": False,
-         "WithRace": False}
+         "WithRace": False, "SkipFanoutUnchanged": False}
     c.update(kw)
     return c
 
@@ -113,6 +113,41 @@ def random_hists(rng, count, length):
     return out
 
 
+def retry_patterns(rng, count):
+    """a replica fails while X is uploaded (the attempt fails after the primary's local write), recovers, and the
+    upload is repeated - the same bytes with the same or other metadata, or other bytes - through the same or another
+    copy; then everything is mounted and observed"""
+    out = []
+    for i in range(count):
+        n = rng.choice([2, 2, 3])
+        to = rng.randrange(n)
+        bad = rng.choice([r for r in range(n) if r != to])
+        down, up = rng.choice([("ro", "rw"), ("unmount", "mount")])
+        k = rng.choice([1, 2])
+        d = rng.choice(["a", "b", "j", "L", "r", "z", "p", "h"])
+        meta = dict(name=rng.choice(["n0", "n1", "n3", "n5"]), mime=rng.choice(["y0", "y1", "y3"]),
+                    pairs=rng.choice(["p0", "p1"]), ts=rng.choice(["old", "old", "none"]), ttl="",
+                    gz=rng.random() < 0.2)
+        ops = []
+        if rng.random() < 0.5:      # warm the location cache / have an older blob everywhere
+            ops.append(upload(to, k, "c1", rng.choice(["a", "b"]), name="n5", mime="y3"))
+        ops.append({"ev": "fault", "kind": down, "r": bad})
+        ops.append(upload(to, k, "c1", d, **meta))
+        ops.append({"ev": "fault", "kind": up, "r": bad})
+        x = rng.random()
+        to2 = to if rng.random() < 0.8 else rng.choice([r for r in range(n) if r != to])
+        if x < 0.6:
+            ops.append(upload(to2, k, "c1", d, **meta))                       # the identical blob again
+        elif x < 0.85:
+            ops.append(upload(to2, k, "c1", d, **dict(meta, name="n2", ts="none")))   # same bytes, other metadata
+        else:
+            ops.append(upload(to2, k, "c1", rng.choice(["a", "b"]), **meta))
+        if rng.random() < 0.4:
+            ops.append({"ev": "delete", "to": to, "k": k, "c": "c1"})
+        out.append((n, rng.choice(REPL[n]), "", ops))
+    return out
+
+
 def nontrivial(lines):
     ok = sum(1 for s in lines if ('"ev":"upload"' in s or '"ev":"delete"' in s) and '"res":"ok"' in s)
     ok += sum(1 for s in lines if '"ev":"race"' in s and '"res1":"ok"' in s and '"res2":"ok"' in s)
@@ -146,6 +181,9 @@ def run(ctx):
         # the model of the code before the fix (replicate request acknowledged by a server without the volume)
         # violates the statement: the invariant is able to see it
         ("MC_C40_ackmissing", base_consts(AckMissing=True), "Agreement"),
+        # a primary that does not forward a write it found unchanged locally: the replica that missed the earlier,
+        # failed attempt never gets the blob - no deviation may admit that
+        ("MC_C40_skipunchanged", base_consts(SkipFanoutUnchanged=True, Datas={"a"}, MaxOps=2), "SnapsAdmitted"),
         # two uploads for one file id at the same time: every copy may end with either blob - admitted only through
         # the named deviation; without it the invariant is violated (model-predicted, reproduced on the real servers)
         ("MC_C40_race", base_consts(WithRace=True, Datas={"a", "b"}, MetaSet={"m1"}, WithTransient=False,
@@ -187,7 +225,9 @@ def run(ctx):
     for h in h3:
         scripts.append((3, rng.choice(REPL[3]), "", from_model(h)))
     scripts += random_hists(rng, 1000 if th else 120, 12)
-    ctx.notes["generated"] = {"witness_n2": len(h2), "witness_n3": len(h3), "random": 1000 if th else 120}
+    scripts += retry_patterns(rng, 400 if th else 40)
+    ctx.notes["generated"] = {"witness_n2": len(h2), "witness_n3": len(h3), "random": 1000 if th else 120,
+                              "retry_patterns": 400 if th else 40}
 
     script = os.path.join(ctx.out, "script.ndjson")
     if ctx.replay:
@@ -204,9 +244,11 @@ def run(ctx):
               chunk_events=9000 if th else 1200)
     ctx.rule = ("executions = TLC-generated witness histories of ReplImpl (one per (copies, read-only flags, location cache, "
                 "mounted/deleted copies, last op) for 2 and 3 copies: uploads and deletes through any copy as the primary, "
+                "concurrent upload pairs, "
                 "mark read-only/writable, unmount, mount, delete a copy) + seeded random executions of length 12 over 10 "
                 "payloads (text, json, html, png, binary, gzip-looking, 3 KiB, empty) x 9 names x 8 mimes x pairs x ts x ttl "
-                "x client-gzipped x fsync on volumes with replication 001/010/100/002/011/110/200; after every operation "
+                "x client-gzipped x fsync on volumes with replication 001/010/100/002/011/110/200 + retry patterns (a replica is "
+                "read-only / unmounted while X is uploaded, recovers, X is uploaded again); after every operation "
                 "every copy's needle (store level) and HTTP view is recorded for every key; non-trivial = at least one "
                 "operation reported successful; distinct by hash of the recorded execution")
     ctx.exhaustive = False
